@@ -72,10 +72,10 @@ META = {
                      'RANDOMIZE over all 65536 integer arguments'),
     },
     'require_counters': {
-        'quick': ['states_walked', 'values_checked_exact', 'transitions_injectivity_sample', 'restart_by_RUN_seen',
+        'quick': ['states_walked', 'boundary_states_stepped_into', 'values_checked_exact', 'transitions_injectivity_sample', 'restart_by_RUN_seen',
                   'restart_by_CLEAR_seen', 'rnd0_repeat_checked', 'rndneg_same_arg_pairs', 'randomize_same_arg_same_state_pairs',
                   'randomize_int_args', 'randomize_float_args'],
-        'thorough': ['states_walked', 'cycle_segments_joined', 'values_checked_exact', 'transitions_injectivity_sample',
+        'thorough': ['states_walked', 'boundary_states_stepped_into', 'cycle_segments_joined', 'values_checked_exact', 'transitions_injectivity_sample',
                      'restart_by_RUN_seen', 'restart_by_CLEAR_seen', 'rnd0_repeat_checked', 'rndneg_same_arg_pairs',
                      'randomize_same_arg_same_state_pairs', 'randomize_int_args', 'randomize_float_args'],
     },
@@ -956,6 +956,75 @@ def _shard_negarg(spec, res, harness, rng):
 
 
 # ---------------------------------------------------------------------------------------------
+# boundary states
+
+def boundary_targets():
+    """States at the edges of the 24-bit range: 2^k-1, 2^k, 2^k+1, all-ones / high-byte patterns."""
+    ts = set()
+    for k in range(25):
+        for d in (-1, 0, 1):
+            ts.add((1 << k) + d)
+    ts.update((0, 1, 2, M - 1, M - 2, 0x7fffff, 0x7ffffe, 0x800000, 0x800001, 0xffff00, 0xffff01, 0xffff7f, 0xffff80,
+               0xfffffe, 0xff0000, 0xff00ff, 0x00ffff, 0x7fff00, 0x7fff80, 0x800080, 0xff, 0x100, 0xaaaaaa, 0x555555,
+               0xc00000, 0xbfffff, 0x400000, 0x3fffff))
+    return sorted(x for x in ts if 0 <= x < M)
+
+
+def _boundary_states(res, harness):
+    """
+    For each target state T: a negative argument whose mantissa is (by the documented LCG) j+1 >= 2 steps before T,
+    then RND j times, so that a plain RND steps from T's predecessor INTO T; then RND(0) x2, then RND out of T.
+    The model only chooses the argument; every state is READ, every value decoded, BASIC level (Session.evaluate).
+    """
+    hit = 0
+    with harness.Box() as box:
+        r = box.impl.randomiser
+        for T in boundary_targets():
+            m, j = rrnd.pred(rrnd.pred(T)), 1
+            while m < (1 << 23) and j < 64:
+                m, j = rrnd.pred(m), j + 1
+            if m < (1 << 23):
+                res.count('boundary_states_not_reachable')
+                continue
+            src = cvs(rrnd.neg_single_bytes(m))
+            case = ['boundary state', T, 'RND(%s) then %d x RND' % (src.decode(), j)]
+            steps = [b'MKS$(RND(' + src + b'))'] + [b'MKS$(RND)'] * j + [b'MKS$(RND(0))', b'MKS$(RND(0))', b'MKS$(RND)']
+            prev_state = prev_val = None
+            for i, expr in enumerate(steps):
+                try:
+                    b = box.ev(expr)
+                except harness.Internal as e:
+                    res.violation(e.key, str(e), case)
+                    break
+                s = _seed_attr(r)
+                res.count('values_checked_exact')
+                if b is None or len(b) != 4:
+                    res.violation('rnd:unexpected-basic-error', '%r gave %r in state %r' % (expr, b, s), case)
+                    break
+                sv = rrnd.seed_of_single(b)
+                if not isinstance(sv, int):
+                    res.violation(_value_problem_key(sv), 'state %d: RND returned bytes %s (%s)' % (s, b.hex(), sv), case)
+                elif sv != s:
+                    res.violation('rnd:value-not-seed-over-2^24',
+                                  'state %d (&H%06X): RND returned bytes %s = %d/2^24, expected exactly %d/2^24' % (s, s, b.hex(), sv, s), case)
+                zero = expr.endswith(b'(0))')
+                if zero:
+                    res.count('rnd0_repeat_checked')
+                    if b != prev_val:
+                        res.violation('rnd0:does-not-repeat-last-value', 'state %d: RND(0) gave %s after %s' % (s, b.hex(), prev_val.hex()), case)
+                    if s != prev_state:
+                        res.violation('rnd0:advances-or-disturbs-the-sequence', 'RND(0) moved the state from %d to %d' % (prev_state, s), case)
+                elif i > 0 and s != rrnd.step(prev_state):
+                    res.violation('rnd:successor-not-documented-lcg-step',
+                                  'state %d is followed by %d, documented LCG gives %d' % (prev_state, s, rrnd.step(prev_state)), case)
+                if i == j and s == T:
+                    hit += 1
+                prev_state, prev_val = s, b
+            res.case(('boundary-state', T))
+    res.count('boundary_states_stepped_into', hit)
+
+
+# ---------------------------------------------------------------------------------------------
 # directed core
 
 def _shard_directed(spec, res, harness):
@@ -1098,6 +1167,8 @@ def _shard_directed(spec, res, harness):
                 res.violation('rndneg:same-argument-different-seed', 'RND(%r) after three histories: %r' % (t, seqs), [t.decode('latin-1')])
             if not isinstance(seqs[0][0], int):
                 res.violation(_value_problem_key(seqs[0][0]), 'RND(%r): %r' % (t, seqs[0][0]), [t.decode('latin-1')])
+    # 5b. boundary generator states, stepped INTO by RND (value construction at the edges of the 24-bit range)
+    _boundary_states(res, harness)
     # 6. a short real walk so that the directed shard also sees the step function
     with harness.Box() as box:
         r = box.impl.randomiser
